@@ -4,10 +4,122 @@ Theorems: Props/C01.v.  Correspondence: all figures (header counts, constraint
 lines, comments) of the real ShExC output vs the model's.  Oracle: every figure
 recomputed from the abstract triples (pipespec.check_figures), independent of
 model and code.
+
+Streams: random graphs x configurations (pipeprops.gen_basic); shape-map runs
+(pipemap.stream); literal_and_tau_cases / literal_and_tau_map_cases: literals spelled
+like the IRI or blank-node label of a selected node, a class or a property (they are
+literal values of their subject and nothing for the node they spell: the model's graph
+keeps a literal's datatype, Spec/Rdf.v) and custom instantiation properties under
+which rdf:type is an ordinary multi-valued property (cardinalities {2}, {3}, '+').
 """
+import random
+
 from vp import pipeprops, pipespec, pipe, pipemap
+from vp.props import c14
 
 pipemap.install()      # shape-map runs (cfg["smap"]) go through Model.RunMap / Shaper(shape_map_raw=...)
+
+E = "http://ex.org/"
+# instantiation properties other than rdf:type (Shaper(instantiation_property=...))
+TAUS = [E + "kind", "http://www.wikidata.org/prop/direct/P31", "http://other.org/ns#isA"]
+STATS = pipemap.STATS      # generation-time statistics (parent process), printed under coverage.shape_map_stream
+
+
+def retype(r, ts, tau):
+    """the same graph under the instantiation property `tau`: every rdf:type statement becomes a `tau` statement,
+    and rdf:type is used as an ORDINARY property: 0-3 values per subject, drawn from the class IRIs, three further
+    IRIs, the typed nodes of the graph (so that some values are instances of a shape) and a blank node -- with two
+    or more values of one kind on many nodes (cardinalities {2}, {3}, '+' for rdf:type)."""
+    out = [(s, tau if p == pipe.RDF_TYPE else p, o) for s, p, o in ts]
+    subjects = list(dict.fromkeys(s for s, _, _ in ts))
+    classes = list(dict.fromkeys(o for _, p, o in ts if p == pipe.RDF_TYPE and o[0] == "I"))
+    typed = list(dict.fromkeys(s for s, p, o in ts if p == pipe.RDF_TYPE and o[0] != "L"))
+    pool = classes + [("I", E + "T%d" % k) for k in range(3)]
+    extra = []
+    for s in subjects:
+        k = r.choice([0, 1, 2, 2, 3, 3])
+        vals = r.sample(pool, min(k, len(pool)))
+        if typed and r.random() < 0.25:
+            vals.append(r.choice(typed))
+        if r.random() < 0.1:
+            vals.append(("B", "_:t0"))
+        for v in vals:
+            extra.append((s, pipe.RDF_TYPE, v))
+    for t in dict.fromkeys(extra):
+        if t not in out:
+            out.insert(r.randint(0, len(out)), t)
+    return out
+
+
+def note(ts, cfg, stream):
+    """what the inputs of the added streams hold (counted at generation time)"""
+    inst = pipespec.spec_instances(ts, cfg)
+    tau = cfg["tau"]
+    STATS["c01:%s_cases" % stream] += 1
+    if cfg["inverse_paths"]:
+        STATS["c01:%s_cases_with_inverse_paths" % stream] += 1
+    spelled = [o for s, p, o in ts if o[0] == "L" and p != tau and o[1] in inst and s[1] in inst]
+    if spelled:
+        STATS["c01:%s_cases_with_a_literal_value_spelling_an_instance" % stream] += 1
+        STATS["c01:literal_values_spelling_an_instance"] += len(spelled)
+        if any(o[1].startswith("_:") for o in spelled):
+            STATS["c01:%s_cases_with_a_literal_spelling_a_blank_node_label" % stream] += 1
+    if tau != pipe.RDF_TYPE:
+        STATS["c01:%s_cases_with_custom_instantiation_property" % stream] += 1
+        per = {}
+        for s, p, o in ts:
+            if p == pipe.RDF_TYPE and s[1] in inst and o[0] != "L":
+                per[(s[1], o[0])] = per.get((s[1], o[0]), 0) + 1
+        if any(v >= 2 for v in per.values()):
+            STATS["c01:%s_cases_where_an_instance_has_2+_rdf:type_values_of_one_kind" % stream] += 1
+
+
+def literal_and_tau_cases(tier, rnd, n_quick, n_thorough):
+    """class-target runs on C01's graphs with (a) 1-4 literals spelled like the IRI / blank-node label of a typed
+    node, of an object, a class IRI or a property IRI (plain, "..."^^xsd:string, xsd:anyURI, @en;
+    vp.props.c14.plant_iri_literals), (b) a custom instantiation property with rdf:type as an ordinary multi-valued
+    property (retype), (c) both; the six inference switches (inverse_paths among them) round-robin"""
+    n = n_thorough if tier == "thorough" else n_quick
+    cases = []
+    for i in range(n):
+        r = random.Random(rnd.getrandbits(48))
+        ts = pipe.gen_graph(r, general=(i % 3 != 0))
+        cfg = pipeprops.random_cfg(r, ts, i // 3)      # targets and thresholds from the classes of the graph
+        fam = i % 3
+        if fam >= 1:
+            cfg["tau"] = TAUS[(i // 3) % len(TAUS)]
+            ts = retype(r, ts, cfg["tau"])
+        if fam != 1:
+            ts = c14.plant_iri_literals(r, ts, tau=cfg["tau"])
+        stream = ["iri-literals", "custom-tau", "custom-tau+iri-literals"][fam]
+        note(ts, cfg, stream)
+        cases.append({"runs": [(ts, cfg)], "meta": {"stream": stream, "i": i}})
+    return cases
+
+
+def literal_and_tau_map_cases(tier, rnd, n_quick, n_thorough):
+    """the same three families as shape-map runs (random selectors answering IRIs over the graph; vp.pipemap)"""
+    n = n_thorough if tier == "thorough" else n_quick
+    cases = []
+    for i in range(n):
+        r = random.Random(rnd.getrandbits(48))
+        ts = pipe.gen_graph(r, general=(i % 6 != 3))
+        base = pipe.switch_cfg(i // 3)
+        base["mode"] = r.choice(["mixed", "mixed", "mixed", "ratio", "abs"])
+        base["remove_empty_shapes"] = r.random() < 0.7
+        fam = i % 3
+        if fam >= 1:
+            base["tau"] = TAUS[(i // 3) % len(TAUS)]
+            ts = retype(r, ts, base["tau"])
+        if fam != 1:
+            ts = c14.plant_iri_literals(r, ts, tau=base["tau"])
+        ts, cfg = pipemap.to_map_run(r, ts, base, only_iri=True)
+        cfg["thr"] = r.choice(pipemap.thresholds_map(ts, cfg, r))
+        stream = "map:" + ["iri-literals", "custom-tau", "custom-tau+iri-literals"][fam]
+        pipemap.note_case("general", cfg)
+        note(ts, cfg, stream)
+        cases.append({"runs": [(ts, cfg)], "meta": {"stream": "shape-map", "family": stream, "i": i}})
+    return cases
 
 
 class Spec(pipeprops.PropSpec):
@@ -20,12 +132,19 @@ class Spec(pipeprops.PropSpec):
             "literal datatypes incl. language tags, untyped/typed IRI and BNode values, general and schema-consistent) x "
             "all 2^6 inference-switch assignments round-robin x thresholds on every k/n boundary x report modes x "
             "targets/all-classes x caps x namespace dictionaries; distinct = distinct (document, configuration); "
-            "non-trivial = some class with >= 2 instances and some non-typing triple")
+            "non-trivial = some class with >= 2 instances and some non-typing triple; plus shape-map runs (vp.pipemap); "
+            "plus, as class-target and as shape-map runs, the same graphs with 1-4 literals spelled like the IRI / "
+            "blank-node label of a typed node, an object, a class or a property (plain, ^^xsd:string, xsd:anyURI, @en), "
+            "with a custom instantiation property (ex:kind, wdt:P31, oth:isA) under which rdf:type is an ordinary "
+            "property with 0-5 values per node, and with both (counts under coverage.shape_map_stream, keys c01:*)")
+    literal_contents = ("literal contents are alphanumeric, or the IRI / blank-node label of a node, a class or a "
+                        "property of the document (no character that N-Triples escapes)")
     assumptions = ["figures on lines rewritten {k>1} -> '+' by disable_exact_cardinality are accepted when they equal "
                    "the figure of '+' or of some exact cardinality k>1 of the same (property, kind) (documented behaviour)"]
 
     def gen_cases(self, tier, rnd):
-        return pipeprops.gen_basic(tier, rnd, 2500, 40000) + pipemap.stream(tier, rnd, 1000, 10000, only_iri=True)
+        return pipeprops.gen_basic(tier, rnd, 2500, 40000) + pipemap.stream(tier, rnd, 1000, 10000, only_iri=True) \
+            + literal_and_tau_cases(tier, rnd, 600, 9000) + literal_and_tau_map_cases(tier, rnd, 300, 4500)
 
     def oracle(self, case, impl):
         ts, cfg = case["runs"][0]
